@@ -898,6 +898,30 @@ fn path_mode(path: &str, keep: bool) {
     std::fs::remove_file(path).unwrap();
 }
 
+/// `runner pathread <path> <type code | -1>`: the files at <path> (put there by the driver: any bytes, with or
+/// without a .shx beside them) read through the path-based one-liners: `read_shapes` (generic),
+/// `read_shapes_as::<T>` for the given type code, `ShapeReader::from_path(path)?.read()`; one line each.
+fn pathread_mode(path: &str, req: W) {
+    print_items(shapefile::read_shapes(path));
+    match req {
+        1 => print_items(shapefile::read_shapes_as::<_, Point>(path)),
+        21 => print_items(shapefile::read_shapes_as::<_, PointM>(path)),
+        11 => print_items(shapefile::read_shapes_as::<_, PointZ>(path)),
+        3 => print_items(shapefile::read_shapes_as::<_, Polyline>(path)),
+        23 => print_items(shapefile::read_shapes_as::<_, PolylineM>(path)),
+        13 => print_items(shapefile::read_shapes_as::<_, PolylineZ>(path)),
+        5 => print_items(shapefile::read_shapes_as::<_, Polygon>(path)),
+        25 => print_items(shapefile::read_shapes_as::<_, PolygonM>(path)),
+        15 => print_items(shapefile::read_shapes_as::<_, PolygonZ>(path)),
+        8 => print_items(shapefile::read_shapes_as::<_, Multipoint>(path)),
+        28 => print_items(shapefile::read_shapes_as::<_, MultipointM>(path)),
+        18 => print_items(shapefile::read_shapes_as::<_, MultipointZ>(path)),
+        31 => print_items(shapefile::read_shapes_as::<_, Multipatch>(path)),
+        _ => println!("-2"),
+    }
+    print_items(ShapeReader::from_path(path).and_then(|r| r.read()));
+}
+
 static CASE_COUNTER: std::sync::atomic::AtomicU64 = std::sync::atomic::AtomicU64::new(0);
 
 /// Aborts the process when one case runs for more than 30 s (a hang is then
@@ -930,6 +954,10 @@ fn main() {
     }
     if args.len() == 4 && args[1] == "path" && args[3] == "keep" {
         path_mode(&args[2], true);
+        return;
+    }
+    if args.len() == 4 && args[1] == "pathread" {
+        pathread_mode(&args[2], args[3].parse().unwrap());
         return;
     }
     if args.len() == 4 && args[1] == "sweep" {
